@@ -411,6 +411,7 @@ fn main() {
             ma_now: ma,
             fail_injected,
             replaying: false,
+            shape: Vec::new(),
             floor: 0,
             cp_floor: 0,
             last_allocated: 0,
